@@ -13,7 +13,9 @@ import (
 	"os"
 	"os/exec"
 	"path/filepath"
+	"strings"
 	"sync"
+	"sync/atomic"
 	"time"
 
 	"verifharness/internal/hx"
@@ -221,15 +223,72 @@ func bucket(ns int64) string {
 	return ">=1s"
 }
 
+// longLate: a future scheduled a second or more ahead that was started more than 300 ms after it was due, in a run in
+// which a 1 ms sleeper beside it was never more than 50 ms late ("small bounded lateness": the general bound of 1 s is
+// chosen for loaded machines; for this one pattern the load is measured instead)
+func longLate(res tlive.Result, canary time.Duration) string {
+	if canary > 50*time.Millisecond {
+		return ""
+	}
+	for _, f := range res.Futs {
+		if f.DNs >= int64(time.Second) && !f.Far && len(f.Cancels) == 0 {
+			for _, s := range f.Starts {
+				if s-f.Fire > int64(300*time.Millisecond) {
+					return fmt.Sprintf("future %d (scheduled %d ms ahead) was started %d ms after it was due", f.ID, f.DNs/1e6, (s-f.Fire)/1e6)
+				}
+			}
+		}
+	}
+	return ""
+}
+
+// sleepCanary runs until stop is closed and reports the worst oversleep of its 1 ms sleeps
+func sleepCanary(stop chan struct{}, worst *int64) {
+	for {
+		select {
+		case <-stop:
+			return
+		default:
+		}
+		t := time.Now()
+		time.Sleep(time.Millisecond)
+		if l := int64(time.Since(t) - time.Millisecond); l > atomic.LoadInt64(worst) {
+			atomic.StoreInt64(worst, l)
+		}
+	}
+}
+
 func runScenario(sc tlive.Scenario, seed uint64) childLine {
 	if sc.Kind == "rearm" && sc.Rearm != nil {
 		return runRearm(sc, seed)
 	}
 	counts := map[string]int{}
 	var res tlive.Result
+	hasLong := false
+	for _, a := range sc.Acts {
+		hasLong = hasLong || (a.Op == "call" && !a.Far && a.DUs >= 1000000)
+	}
+	var lateRuns []string
 	for attempt := 1; ; attempt++ {
+		var worst int64
+		stopC := make(chan struct{})
+		if hasLong {
+			go sleepCanary(stopC, &worst)
+		}
 		res = tlive.Run(sc, seed+uint64(attempt))
+		close(stopC)
 		sf := softFailures(sc, res)
+		if hasLong {
+			if w := longLate(res, time.Duration(atomic.LoadInt64(&worst))); w != "" {
+				lateRuns = append(lateRuns, w)
+				if len(lateRuns) < 3 && res.NotQuiet == "" {
+					counts["rerun-after-a-late-long-delay"]++
+					continue
+				}
+			} else {
+				lateRuns = nil
+			}
+		}
 		if res.NotQuiet != "" || len(sf) == 0 || attempt >= 3 {
 			break
 		}
@@ -242,6 +301,9 @@ func runScenario(sc tlive.Scenario, seed uint64) childLine {
 		fmt.Fprintf(os.Stderr, "c13: scenario re-run (%v)\n", sf)
 	}
 	l := childLine{Case: sc, Counts: counts}
+	if len(lateRuns) >= 3 {
+		l.Direct = append(l.Direct, directV{What: "a function scheduled more than a second ahead was started more than 300 ms late in three runs in a row (a sleep canary beside it was never 50 ms late)", Detail: strings.Join(lateRuns, "; ")})
+	}
 	snaps := tlive.PickSnaps(sc, res, 5)
 	for _, sn := range res.Snaps {
 		if noProgress(sn) { // Coq is the judge: it gets the snapshot
